@@ -18,7 +18,7 @@ import signal
 import sys
 from pathlib import Path
 
-sys.set_int_max_str_digits(0)
+# NB: the interpreter's int<->str digit limit is left at its default: it is part of the observed behaviour
 
 
 class Timeout(Exception):
